@@ -92,6 +92,7 @@ type Options struct {
 	Faults         []simfs.Fault
 	AfterEvent     func(r *Result, ev *simfs.Event) // called with interception suppressed
 	BeforeRun      func(r *Result)                  // after S0, before activation
+	AfterRun       func(r *Result)                  // after S1, before the sandbox is removed
 	KeepRoot       bool
 	ShortReadEvery int
 	KeepData       bool
@@ -174,6 +175,9 @@ func Run(cfg Config, opt Options) (*Result, error) {
 			}
 			r.ValidPDF[k] = api.ValidateFile(filepath.Join(root, k), nil) == nil
 		}
+	}
+	if opt.AfterRun != nil {
+		opt.AfterRun(r)
 	}
 	return r, nil
 }
